@@ -82,7 +82,7 @@ Lemma scan_one_spec e :
   scan_one (to_model e) =
     match k_closing e with
     | ClosedBeforeReadlink => Val HitEnoent
-    | ClosedBeforeFdinfo =>
+    | ClosedBeforeFdinfo | ClosedDuringFdinfoRead =>
         if prefixb [47] (k_path e) && k_isreg e then Val HitEnoent else Val Skip
     | StillOpen =>
         if listed e then
@@ -102,6 +102,8 @@ Proof.
     destruct (spec_mode (oct_val (k_flags e))); cbn [of_option obind]; [|reflexivity].
     unfold py_int. rewrite (parse_int_dec _ Hfd). reflexivity.
   - reflexivity.
+  - destruct (prefixb [47] (readlink_clean (k_raw e) (k_exists_cut e))); [|reflexivity].
+    destruct (k_isreg e); reflexivity.
   - destruct (prefixb [47] (readlink_clean (k_raw e) (k_exists_cut e))); [|reflexivity].
     destruct (k_isreg e); reflexivity.
 Qed.
@@ -131,6 +133,10 @@ Proof.
       * exists hit. split; [reflexivity|]. intros Hh. rewrite (Hhit Hh). apply orb_true_r.
     + assert (listed e = false) as -> by (unfold listed; now rewrite Ec).
       exists true. split; reflexivity.
+    + assert (listed e = false) as -> by (unfold listed; now rewrite Ec).
+      destruct (prefixb [47] (k_path e) && k_isreg e).
+      * exists true. split; reflexivity.
+      * exists hit. split; [reflexivity|]. intros Hh. reflexivity.
     + assert (listed e = false) as -> by (unfold listed; now rewrite Ec).
       destruct (prefixb [47] (k_path e) && k_isreg e).
       * exists true. split; reflexivity.
